@@ -170,6 +170,9 @@ def fmt(v):
 
 
 def run(rep, tier):
+    from .common import unknown_helpers_are_not_violations
+    # next_tag is part of today's tree (it was added with the repair b87fcb9 and is read in place on purpose)
+    unknown_helpers_are_not_violations(rep, ("C17.R1", "C17.R2", "C17.R4", "C17.R8", "C17.R9", "C17.R10"), allow=("pika::concurrency::detail::deque::next_tag",))
     rep.rule("C17.R1", "K4/K5: index queue: empty re-tested before every CAS; nullopt only when empty; value only after CAS; range only via CAS")
     rep.rule("C17.R2", "offsets: pop_left returns first / installs [first+1,last); pop_right returns last-1 / installs [first,last-1)")
     rep.rule("C17.R3", "K9: range fits a lock-free 64-bit atomic")
